@@ -81,6 +81,7 @@ type ContractSet struct {
 	MethodNonNil map[string]bool
 	StructFacts  []StructFact
 	ParametricFiles []string
+	ParametricFuncs map[string]bool
 	TypeInvs     []*TypeInv
 	ElemsNonNil  map[string]bool // type keys whose slice elements are never nil
 	ArgObserved  map[string]bool // function keys whose call operands are recorded as ghost state
@@ -113,7 +114,7 @@ type TypeInv struct {
 
 var clauseKeywords = map[string]bool{"stable": true, "reads-model": true, "names": true, "iteration": true, "variant": true, "requires": true, "ensures": true, "invariant": true, "decreases": true, "property": true,
 	"pure": true, "assigns": true, "trusted": true, "noinline": true, "inline": true, "func": true, "sweep": true, "immutable": true, "spec": true,
-	"axiom": true, "flagset": true, "safeonly": true, "immutable-family": true, "method-pre": true, "entry": true, "type-invariant": true, "elems-nonnil": true, "callback-parametric": true, "json-hidden": true, "json-visible": true, "pass-order": true, "observe-args": true}
+	"axiom": true, "flagset": true, "safeonly": true, "immutable-family": true, "method-pre": true, "entry": true, "type-invariant": true, "elems-nonnil": true, "callback-parametric": true, "json-hidden": true, "json-visible": true, "pass-order": true, "observe-args": true, "map-order": true}
 
 var contractRoot = "" // directory that contract file paths are relative to (repo or mirror)
 
@@ -181,8 +182,12 @@ func (w *World) LoadContracts() error {
 		if fn == nil {
 			// a contract on a generic function applies to each of its instances
 			found := false
+			base, suf := k, ""
+			if i := strings.Index(k, "$"); i > 0 {
+				base, suf = k[:i], k[i:] // a closure of a generic function: pkg.F$1 binds pkg.F[T1]$1, pkg.F[T2]$1, ...
+			}
 			for fk, f := range w.Funcs {
-				if strings.HasPrefix(fk, k+"[") {
+				if (suf == "" && strings.HasPrefix(fk, k+"[")) || (suf != "" && strings.HasPrefix(fk, base+"[") && strings.HasSuffix(fk, "]"+suf)) {
 					cc := *c
 					cc.Fn = f
 					cc.Key = fk
@@ -431,6 +436,18 @@ func (w *World) parseContractFile(cs *ContractSet, file string) error {
 			if len(fs) >= 3 && fs[1] == "file" {
 				cs.ParametricFiles = append(cs.ParametricFiles, fs[2])
 			}
+			// callback-parametric func <key> : that function calls nothing dynamically except its own function-typed
+			// parameters (checked on the SSA when the function is first looked at)
+			if len(fs) >= 3 && fs[1] == "func" {
+				if cs.ParametricFuncs == nil {
+					cs.ParametricFuncs = map[string]bool{}
+				}
+				k := fs[2]
+				if pkgShort != "" && !looksQualified(k) {
+					k = pkgShort + "." + k
+				}
+				cs.ParametricFuncs[k] = true
+			}
 		case "json-hidden", "json-visible":
 			// json-hidden Cxx pkg.Struct.Field ...   : the field never reaches encoding/json (tag json:"-")
 			// json-visible Cxx pkg.Struct.Field=name ... : the field is marshalled under that key
@@ -447,6 +464,12 @@ func (w *World) parseContractFile(cs *ContractSet, file string) error {
 			}
 			for _, f := range strings.Fields(rest) {
 				cs.ArgObserved[f] = true
+			}
+		case "map-order":
+			// map-order Cxx package : no loop over a Go map in this package prints generator output or appends to a
+			// slice that is not sorted afterwards (map iteration order is random: decided on the SSA)
+			if len(fs) >= 3 && fs[2] == "package" {
+				cs.StructFacts = append(cs.StructFacts, StructFact{Kind: kw, Prop: fs[1], Spec: pkgShort, File: file, Line: rl.line})
 			}
 		case "pass-order":
 			// pass-order Cxx pkg.Driver: pkg.A < pkg.B : the driver calls the functions of one slice literal in order,
